@@ -64,3 +64,11 @@ PROPS = {
     'C17': dict(modules=['Hagall.Props.C17'], profiles=['mixed', 'comp', 'pose', 'custom', 'join'], n=(240, 4000), focus=None,
                 gen_args=[], topics=slice_of(ALL_TOPICS + ['disconnect'], outs=GATED)),
 }
+
+
+# every property's obligations include the facts it rests on (regenerated from the source on every run)
+ABS = {'C14': ['Hagall.Gen.AbsCustom'], 'C17': ['Hagall.Gen.AbsFlags'], 'C04': ['Hagall.Gen.AbsDispatch'],
+       'C18': ['Hagall.Gen.AbsLatency'], 'C19': ['Hagall.Gen.AbsChans'], 'C08': ['Hagall.Gen.AbsChans', 'Hagall.Gen.AbsDispatch']}
+for _p, _c in PROPS.items():
+    _c['modules'] = _c['modules'] + [f'Hagall.Gen.Ob{_p}'] + ABS.get(_p, [])
+    _c.setdefault('tools', ['drive', 'extract'])
